@@ -368,7 +368,10 @@ Inductive ev :=
 | EVanish (rid : Z)                 (* the region is merged away: the stores and PD's cache no longer have it *)
 | EPollGone (rid : Z)               (* PushOperators reaches the operator of a region PD no longer knows *)
 | EBreak (st : Z)                   (* the heartbeat stream of a store breaks: pushes into it fail from now on *)
-| ERebind (st : Z).                 (* the store binds a new stream; the observation lists what the new stream receives at once *)
+| ERebind (st : Z)                  (* the store binds a new stream; the observation lists what the new stream receives at once *)
+| ERecordStore (n : Z).             (* the TTL store behind opRecords (pkg/cache): n keys whose old entry has expired but is not
+                                       collected yet are written again while the collector runs; the result is the number of
+                                       fresh entries that are missing afterwards *)
 
 Inductive dres := DAccepted | DStale | DRejected | DNone.
 
@@ -541,6 +544,7 @@ Definition ctl_step (c : ctl) (e : ev) : ctl * obs :=
   | EPollGone rid => let c' := poll_gone c rid in (c', snapshot c' (-1) [] None DNone)
   | EBreak st => let c' := set_unbound c (st :: unbound c) in (c', snapshot c' (-1) [] None DNone)
   | ERebind st => let c' := set_unbound c (filter (fun x => negb (x =? st)) (unbound c)) in (c', snapshot c' (-1) [] None DNone)
+  | ERecordStore _ => (c, snapshot c 0 [] None DNone)     (* a record that has just been written stays until it expires *)
   end.
 
 Definition init (maxw : Z) : ctl := Ctl [] [] [] [] [] [] [] [] maxw [].
@@ -724,6 +728,11 @@ Definition monitor_step (m : mon) (e : ev) (o : obs) : mon * option string :=
     | _ => first_some (map (fun x => if is_some (alist_get (b_running o) (m_rid x)) then None
                                      else Some "C09:command-delivered-without-running-operator") (b_sent o))
     end in
+  let v_rec :=
+    match e with
+    | ERecordStore _ => if b_res o =? 0 then None else Some "C09:record-store-loses-fresh-entry"
+    | _ => None
+    end in
   let v_stale :=
     match e with
     | EHeartbeat rid =>
@@ -814,7 +823,7 @@ Definition monitor_step (m : mon) (e : ev) (o : obs) : mon * option string :=
         end
     | _ => None
     end in
-  (m', first_some [v_one; v_poke; v_path; v_left; v_admit; v_norun; v_stamp; v_stale; v_slow; v_repl]).
+  (m', first_some [v_one; v_poke; v_path; v_left; v_admit; v_norun; v_stamp; v_rec; v_stale; v_slow; v_repl]).
 
 Fixpoint monitor_run (m : mon) (es : list ev) (os : list obs) : option string :=
   match es, os with
